@@ -384,6 +384,48 @@ func ruleDedupScope(c *Ctx, r *Report) {
 			continue
 		}
 		n++
+		// the membership test is keyed by the field's schema path — the key under which the
+		// result is stored — and not by a property several fields can share (the union's type name).
+		var keyExpr ast.Expr
+		for _, ft := range c.FactsAt(f, bs, false) {
+			if ft.Kind != "cond" || !factEncloses(c, f, ft, bs) {
+				continue
+			}
+			ast.Inspect(ft.Cond, func(y ast.Node) bool {
+				if ix, ok := y.(*ast.IndexExpr); ok && ObjOf(info, ix.X) == set {
+					keyExpr = ix.Index
+				}
+				return true
+			})
+		}
+		if keyExpr != nil {
+			keyObj := ObjOf(info, keyExpr)
+			perPath := false
+			if keyObj != nil {
+				// another map written in the same arm (the arm's result) is keyed by the same variable.
+				var arm ast.Node = loops[0]
+				for _, a := range c.Ancestors(f, bs) {
+					if cc, ok := a.(*ast.CaseClause); ok {
+						arm = cc
+						break
+					}
+				}
+				ast.Inspect(arm, func(y ast.Node) bool {
+					as, ok := y.(*ast.AssignStmt)
+					if !ok {
+						return true
+					}
+					for _, l := range as.Lhs {
+						if ix, ok := ast.Unparen(l).(*ast.IndexExpr); ok && ObjOf(info, ix.X) != set && ObjOf(info, ix.Index) == keyObj {
+							perPath = true
+						}
+					}
+					return true
+				})
+			}
+			r.Check(perPath, fmt.Sprintf("gogen.CodeGenerator.Generate:skip-key(%s)", set.Name()), c.Pos(bs.Pos()), "fields skipped by the key under which their result is stored",
+				"Generate skips a field when "+types.ExprString(keyExpr)+" was seen before, which is not the key (the schema path) under which the field's enumerated types are stored: a second leaf with the same union type — a leafref sorting before its target — leaves the other path without a ΛEnumTypes entry, and enumeration names cannot be parsed into either leaf")
+		}
 		outer := loops[len(loops)-1]
 		inside := outer.Pos() <= set.Pos() && set.Pos() <= outer.End()
 		r.Check(inside, fmt.Sprintf("gogen.CodeGenerator.Generate:skip-set(%s)", set.Name()), c.Pos(bs.Pos()), "set created per directory",
